@@ -10,6 +10,7 @@
 
 use std::sync::Mutex;
 
+use crate::consensus::{BlockstoreEvent, Cert, PoolEvent, Vote};
 use crate::crypto::merkle::BlockHash;
 use crate::{BlockId, Slot, ValidatorIndex};
 
@@ -36,6 +37,27 @@ pub enum VerifEvent {
         kind: &'static str,
         slot: Slot,
         hash: Option<BlockHash>,
+    },
+    /// `Pool::add_vote` of `node` was called with `vote`.
+    PoolVote { node: ValidatorIndex, vote: Vote },
+    /// The vote of the current `Pool::add_vote` call of `node` passed admission and is counted.
+    PoolVoteCounted { node: ValidatorIndex },
+    /// `Pool::add_cert` of `node` was called with `cert`.
+    PoolCert { node: ValidatorIndex, cert: Cert },
+    /// Pool of `node` sent `event` to Votor.
+    PoolEmit { node: ValidatorIndex, event: PoolEvent },
+    /// Votor of `node` starts handling `event` from its pool.
+    VotorPool { node: ValidatorIndex, event: PoolEvent },
+    /// Votor of `node` starts handling `event` from its blockstore.
+    VotorBlockstore {
+        node: ValidatorIndex,
+        event: BlockstoreEvent,
+    },
+    /// Votor of `node` starts handling a timeout for `slot`.
+    VotorTimeout {
+        node: ValidatorIndex,
+        slot: Slot,
+        crashed_leader: bool,
     },
     /// Free-form event appended by the harness itself (keeps one total order).
     Harness(String),
